@@ -494,5 +494,107 @@ theorem box_surface_area (b : BBox ℝ) :
       + (b.max.y - b.min.y) * (b.max.z - b.min.z)) := by
   simp only [BBox.surfaceArea]; vec_real
 
+/-! ## the circumradius is the true one; the aspect ratio is circumradius over shortest edge -/
+
+theorem circ_num_sq (u v : V3 ℝ) :
+    (((u.cross v).cross u).smul v.lengthSquared + (v.cross (u.cross v)).smul u.lengthSquared).lengthSquared
+      = u.lengthSquared * v.lengthSquared * (u - v).lengthSquared * (u.cross v).lengthSquared := by
+  vec_real; ring
+
+theorem sdiv_lsq (N : V3 ℝ) (k : ℝ) (hk : k ≠ 0) : (N.sdiv k).lengthSquared = N.lengthSquared / (k * k) := by
+  vec_real; field_simp
+
+theorem squaredDistance_eq (p q : V3 ℝ) : p.squaredDistance q = (q - p).lengthSquared := by
+  simp only [V3.squaredDistance]; vec_real; ring
+
+theorem distance_mul_self (p q : V3 ℝ) : p.distance q * p.distance q = (q - p).lengthSquared := by
+  simp only [V3.distance, real_sqrt]
+  rw [Real.mul_self_sqrt (by rw [squaredDistance_eq]; exact C10.lengthSquared_nonneg _), squaredDistance_eq]
+
+theorem distance_nonneg (p q : V3 ℝ) : 0 ≤ p.distance q := by
+  simp only [V3.distance, real_sqrt]; exact Real.sqrt_nonneg _
+
+/-- the Heron-type product under the root of `circumradius` is four times the squared cross product -/
+theorem heron_product (la lb lc A B C D : ℝ) (ha : la * la = A) (hb : lb * lb = B) (hc : lc * lc = C)
+    (hD : 4 * D = 2 * A * B + 2 * B * C + 2 * C * A - A * A - B * B - C * C) :
+    (la + lb + lc) * (lb + lc - la) * (lc + la - lb) * (la + lb - lc) = 4 * D := by
+  rw [hD, ← ha, ← hb, ← hc]; ring
+
+theorem lagrange_sides (u v : V3 ℝ) :
+    4 * (u.cross v).lengthSquared = 2 * u.lengthSquared * (u - v).lengthSquared + 2 * (u - v).lengthSquared * v.lengthSquared
+      + 2 * v.lengthSquared * u.lengthSquared - u.lengthSquared * u.lengthSquared
+      - (u - v).lengthSquared * (u - v).lengthSquared - v.lengthSquared * v.lengthSquared := by
+  vec_real; ring
+
+/-- **the value `circumradius()` returns is the true circumradius**: its square is the squared distance from the circumcentre
+    to the vertices (non-degenerate triangle; exact semantics) -/
+theorem circumradius_sq (t : Triangle ℝ) (hnd : ((t.b - t.a).cross (t.c - t.a)).lengthSquared ≠ 0) :
+    t.circumradius * t.circumradius = (t.circumcenter - t.a).lengthSquared := by
+  obtain ⟨a, b, c, nrm, ar⟩ := t
+  simp only [] at hnd
+  have hDpos : 0 < ((b - a).cross (c - a)).lengthSquared :=
+    lt_of_le_of_ne (C10.lengthSquared_nonneg _) (Ne.symm hnd)
+  -- the circumcentre
+  have e : (Triangle.circumcenter ⟨a, b, c, nrm, ar⟩) - a =
+      ((((b - a).cross (c - a)).cross (b - a)).smul (c - a).lengthSquared
+        + ((c - a).cross ((b - a).cross (c - a))).smul (b - a).lengthSquared).sdiv
+        (2 * ((b - a).cross (c - a)).lengthSquared) := by
+    simp only [Triangle.circumcenter, length_mul_self]
+    apply V3.ext' <;> simp only [V3.add_def, V3.sub_def, V3.sdiv] <;> num_real <;> ring
+  rw [e, sdiv_lsq _ _ (by positivity), circ_num_sq]
+  -- the radius
+  simp only [Triangle.circumradius, Triangle.ab, Triangle.bc, Triangle.ca, Segment.new, real_sqrt]
+  have hA := distance_mul_self a b
+  have hB := distance_mul_self b c
+  have hC := distance_mul_self c a
+  have hCv : (a - c).lengthSquared = (c - a).lengthSquared := by vec_real; ring
+  have hBv : (c - b).lengthSquared = ((b - a) - (c - a)).lengthSquared := by vec_real; ring
+  rw [hCv] at hC
+  rw [hBv] at hB
+  have hs := heron_product (a.distance b) (b.distance c) (c.distance a) _ _ _ _ hA hB hC
+    (lagrange_sides (b - a) (c - a))
+  rw [hs]
+  have hsq : Real.sqrt (4 * ((b - a).cross (c - a)).lengthSquared) * Real.sqrt (4 * ((b - a).cross (c - a)).lengthSquared)
+      = 4 * ((b - a).cross (c - a)).lengthSquared := Real.mul_self_sqrt (by positivity)
+  have hne : Real.sqrt (4 * ((b - a).cross (c - a)).lengthSquared) ≠ 0 := by
+    intro h0; rw [h0] at hsq; linarith
+  rw [div_mul_div_comm, hsq]
+  have hnum : a.distance b * b.distance c * c.distance a * (a.distance b * b.distance c * c.distance a)
+      = (b - a).lengthSquared * ((b - a) - (c - a)).lengthSquared * (c - a).lengthSquared := by
+    rw [← hA, ← hB, ← hC]; ring
+  rw [hnum]
+  field_simp
+  ring
+
+theorem circumradius_nonneg (t : Triangle ℝ) : 0 ≤ t.circumradius := by
+  simp only [Triangle.circumradius, Triangle.ab, Triangle.bc, Triangle.ca, Segment.new, real_sqrt]
+  apply div_nonneg
+  · exact mul_nonneg (mul_nonneg (distance_nonneg _ _) (distance_nonneg _ _)) (distance_nonneg _ _)
+  · exact Real.sqrt_nonneg _
+
+/-- … so `circumradius()` IS the distance from the circumcentre to the vertices -/
+theorem circumradius_eq (t : Triangle ℝ) (hnd : ((t.b - t.a).cross (t.c - t.a)).lengthSquared ≠ 0) :
+    t.circumradius = (t.circumcenter - t.a).length := by
+  have h := circumradius_sq t hnd
+  have h0 := circumradius_nonneg t
+  simp only [V3.length, real_sqrt]
+  rw [← h, Real.sqrt_mul_self h0]
+
+/-- **the aspect ratio the mesher caches and compares is the true circumradius over the shortest edge** (edges below 1e19) -/
+theorem aspectRatio_eq (t : Triangle ℝ) (hnd : ((t.b - t.a).cross (t.c - t.a)).lengthSquared ≠ 0) :
+    t.aspectRatio = (t.circumcenter - t.a).length
+      / min (min (min (1e19 : ℝ) t.ab.length) t.bc.length) t.ca.length := by
+  rw [← circumradius_eq t hnd]
+  simp only [Triangle.aspectRatio]
+  have pick : ∀ x m : ℝ, (if (x <. m) = true then x else m) = min m x := by
+    intro x m
+    by_cases h : x < m
+    · have : (x <. m) = true := by bool_real; exact h
+      rw [if_pos this, min_eq_right (le_of_lt h)]
+    · have : ¬ ((x <. m) = true) := by bool_real; exact not_lt.1 h
+      rw [if_neg this, min_eq_left (not_lt.1 h)]
+  rw [pick, pick, pick]
+  num_real
+
 end
 end G3d.C19
